@@ -477,6 +477,19 @@ def _audit_cases(tier, rng):
                         if k_ in opts:
                             c[k_] = opts[k_]
                     yield c
+    # integer epochs at the ends of their range (raw ADC counts): the criterion is a mathematical quantity - the peak of
+    # an int16 epoch holding -32768 is 32768, the peak-to-peak amplitude of (30000, -30000) is 60000 - not whatever
+    # abs / ptp return in a wrapping integer type
+    for dt, lo, hi in (('int16', -32768, 32767), ('int32', -2 ** 31, 2 ** 31 - 1), ('int8', -128, 127)):
+        for mode in ('abs', 'ptp'):
+            for th in (100, hi, hi + 2, 2 * hi):
+                for ann in (False, True):
+                    E, T = 4, 3
+                    eps = [[lo, 0, 1], [hi - 1, -(hi - 1), 0], [5, -7, 3], [hi, hi, hi]]
+                    b = {'ann': ann, 'shape': [E, 1, T], 'vals': [v for ep in eps for v in ep], 'dt': dt}
+                    if ann:
+                        b.update(s0=0, fs=[36000, 1], ch=[70], md=[300 + q for q in range(E)])
+                    yield {'mode': mode, 'thr': ['c', th], 'batches': [b]}
     # empty batches, a batch with no channel, options combined with refused input
     for ann in (False, True):
         for shape in ([0, 1, 3], [2, 0, 3], [0, 0, 3], [0, 2, 3]):
